@@ -62,6 +62,25 @@ def templates():
     return out
 
 
+def conditional_templates():
+    """tracked declarations in scopes whose execution depends on a measurement: the records of a shot depend on its coin, so a
+    variable's total over N shots is in general NOT a multiple of N. Every shot consumes the same number of draws whatever its
+    coin (the branch not taken measures a scratch qubit instead), so a flat draw list addresses the coins.
+    (name, source, records by coin, echo lines per shot, draws per shot)"""
+    out = []
+    out.append(("conditional local", "function main() -> void {\n  qubit c; h(c); bit b = measure c;\n"
+                "  if (b == 1b) { @tracked qubit r; x(r); measure r; } else { qubit s; measure s; }\n  echo(b);\n}\n",
+                {0: [], 1: [("qubit r", "1")]}, 1, 2))
+    out.append(("conditional local inside a loop", "function main() -> void {\n  qubit c; h(c); bit b = measure c;\n  for (int i = 0; i < 3; i = i + 1) {\n"
+                "    if (b == 1b || i == 0) { @tracked qubit r; if (i == 1) { x(r); } measure r; } else { qubit s; measure s; }\n  }\n"
+                "  @tracked qubit always; measure always;\n  echo(b);\n}\n",
+                {0: [("qubit r", "0"), ("qubit always", "0")], 1: [("qubit r", "0"), ("qubit r", "1"), ("qubit r", "0"), ("qubit always", "0")]}, 1, 5))
+    out.append(("conditional helper", "function probe(int f) -> void {\n  @tracked qubit[2] h0;\n  if (f == 1) { x(h0[1]); }\n  measure h0;\n}\n"
+                "function main() -> void {\n  qubit c; h(c); bit b = measure c;\n  if (b == 1b) { probe(1); } else { qubit s; measure s; qubit t; measure t; }\n  probe(0);\n  echo(b);\n}\n",
+                {0: [("qubit[] h0", "00")], 1: [("qubit[] h0", "01"), ("qubit[] h0", "00")]}, 1, 5))
+    return out
+
+
 def configs(tier):
     shots = [0, 1, 2, 3, 7] if tier == "quick" else [0, 1, 2, 3, 7, 10]
     out = []
